@@ -191,3 +191,11 @@ _SKIPS = {'SCCHIC_384w_c8_u3': (1, 0), 'SCCHIC_384w_c8_u3_direct_ligation': (1, 
 for _u in UNITS:
     _n = _u.name[len('layout['):-1]
     _u.replay = layout_replay(_n, 1 if 'SINGLE_END' in _n else 2, _SKIPS.get(_n, (0, 0)))
+
+
+def extra_units():
+    """the recorded UMI / ligation qualities are ENC(qualities found in the read): ENC must be the faithful codec (identity
+    on phred 0..51, saturating above) - C04's exhaustive codec unit, re-verified under this property"""
+    from contracts import c04
+    from pyvc.units import share
+    return [share(c04.phred, PROP)]
